@@ -605,12 +605,52 @@ pub fn run(rep: &Report) {
     run_family(rep, "default_delimiters", n, || segs_strategy(Delims::default()), |segs, l| check_segments(segs, &Delims::default(), l));
     run_family(rep, "custom_delimiters", n / 2, || delims_strategy().prop_flat_map(|d| (segs_strategy(d.clone()), Just(d))), |(segs, d), l| check_segments(segs, d, l));
     run_family(rep, "plain_text", n / 2, || prop_oneof![2 => Just(Delims::default()), 1 => delims_strategy()].prop_flat_map(|d| (text_strategy(&d, 12), Just(d))), |(t, d), l| check_plain(t, d, l));
-    for (lab, min) in [("marker-faces-whitespace", 100_000), ("has:raw", 100_000), ("has:comment", 100_000), ("has:tag-pair", 50_000), ("delims:custom", 50_000), ("delims:multibyte", 20_000), ("respelled", 30_000), ("plain", 50_000), ("plain:multibyte", 20_000), ("plain:partial-delimiter", 20_000)] {
+    // delimiter sets in which two start delimiters coincide are documented as conflicts: if one is accepted, a comment
+    // (or a tag) spelled with it is read as something else, i.e. "comments produce nothing" fails under an accepted set
+    let pool: Vec<&str> = vec!["{{", "{%", "{#", "<<", "[[", "\u{e9}", "$$", "(("];
+    let ends: Vec<&str> = vec!["}}", "%}", "#}", ">>", "]]", "\u{e8}", "$$", "))"];
+    let mut conflicts: Vec<Delims> = vec![];
+    for (i, a) in pool.iter().enumerate() {
+        for (j, b) in pool.iter().enumerate() {
+            if i == j {
+                continue;
+            }
+            for which in 0..3 {
+                // the pair that coincides: (block, variable), (block, comment), (variable, comment)
+                let (bs, vs, cs) = match which {
+                    0 => (*a, *a, *b),
+                    1 => (*a, *b, *a),
+                    _ => (*b, *a, *a),
+                };
+                conflicts.push(Delims { bs: bs.into(), be: ends[i].into(), vs: vs.into(), ve: ends[j].into(), cs: cs.into(), ce: ends[(i + j) % ends.len()].into() });
+            }
+        }
+    }
+    run_enum(rep, "conflicting_delimiters", &conflicts, |d, l| {
+        l.eval();
+        l.label("delims:conflicting");
+        let mut t = tera::Tera::new();
+        match guard(|| t.set_delimiters(d.tera()).is_ok()) {
+            Ok(false) => Ok(()),
+            Ok(true) => {
+                let src = format!("a {} x {} b {} 1 {} c", d.cs, d.ce, d.vs, d.ve);
+                let got = render(&src, d);
+                Err(Fail::new("C08/conflicting-delimiters-accepted", format!("set_delimiters accepted {:?} although two start delimiters coincide; `{src}` then renders {}", d.json(), got.json()), json!({"kind": "conflict", "delimiters": d.json()})))
+            }
+            Err(p) => Err(Fail::new("C08/panic", p, json!({"kind": "conflict", "delimiters": d.json()}))),
+        }
+    });
+    for (lab, min) in [("delims:conflicting", 100), ("marker-faces-whitespace", 100_000), ("has:raw", 100_000), ("has:comment", 100_000), ("has:tag-pair", 50_000), ("delims:custom", 50_000), ("delims:multibyte", 20_000), ("respelled", 30_000), ("plain", 50_000), ("plain:multibyte", 20_000), ("plain:partial-delimiter", 20_000)] {
         rep.floor(lab, min);
     }
 }
 
 pub fn replay(_rep: &Report, case: &serde_json::Value) -> Option<Check> {
+    if case.get("kind").and_then(|x| x.as_str()) == Some("conflict") {
+        let d = Delims::from_json(case.get("delimiters")?)?;
+        let mut t = tera::Tera::new();
+        return Some(if t.set_delimiters(d.tera()).is_ok() { Err(Fail::new("C08/conflicting-delimiters-accepted", format!("{:?} accepted", d.json()), case.clone())) } else { Ok(()) });
+    }
     match case.get("kind")?.as_str()? {
         "ws" => {
             let d = Delims::from_json(case.get("delimiters")?)?;
